@@ -346,6 +346,13 @@ def oracle(case):
         return None
     exp = expect(case)
     if exp is None:
+        if case['op'] in ('tvl_eq', 'tvl_ne'):
+            # which single answer operands that cannot be compared element by element get is not specified, but the
+            # tvl_ comparisons "return True, False or masked ... for every combination": an exception is none of these
+            got = impl(case)
+            if isinstance(got, str):
+                return (case['op'] + ':raised', '%s of operands of one class raised %s; a tvl_ comparison returns True, '
+                        'False or masked' % (case['op'], got))
         return None
     got = impl(case)
     if C.sx(got) != C.sx(exp):
@@ -374,11 +381,10 @@ def request(case):
         a, b = poly_pair(a, b)
         return ['c14', op, n_sx(a, True), n_sx(b, True)]
     if op in ('tvl_eq', 'tvl_ne'):
-        if case['a']['item'] != case['b']['item']:
-            return None
-        if np_bcast(case['a']['shape'], case['b']['shape']) is None:
-            return None
-        return ['c14', op, n_sx(case['a']), n_sx(case['b'])]
+        # also for operands that cannot be compared element by element: the property does not say what the single answer
+        # is (the oracle abstains), but the model follows the code (`_tvl_op`: unknown iff an operand is entirely masked),
+        # so a change of that branch breaks the correspondence
+        return ['c14', op, n_sx(case['a'], True), n_sx(case['b'], True)]
     if op in ('ord', 'tvl_ord'):
         return ['c14', op, case['sym'], n_sx(case['a']), n_sx(case['b'])]
     if op == 'bool':
@@ -535,8 +541,15 @@ def gen_cases(rng, tier):
                     cases.append(mk({'op': 'bool', 'src': rng.choice(list(ORD)), 'a': oa, 'b': ob}))
             # incompatible item shapes are unequal, not an error
             oa, ob = rand_nopd(rng, sa, 'Vector', (2,)), rand_nopd(rng, sb, 'Vector', (3,))
+            if sa == sb and sa and rng.random() < 0.5:
+                # complementary array masks: no element is valid on both sides, yet neither operand is entirely masked
+                n = int(np.prod(sa, dtype=int))
+                bits = [rng.random() < 0.5 for _ in range(n)]
+                oa['mask'], ob['mask'] = bits, [not x for x in bits]
             cases.append(mk({'op': 'eq', 'a': oa, 'b': ob, 'incompatible': True}))
             cases.append(mk({'op': 'ne', 'a': oa, 'b': ob, 'incompatible': True}))
+            cases.append(mk({'op': 'tvl_eq', 'a': oa, 'b': ob, 'incompatible': True}))
+            cases.append(mk({'op': 'tvl_ne', 'a': oa, 'b': ob, 'incompatible': True}))
             # ... an item is numerator AND denominator axes (the form every derivative takes): with / without a
             # denominator, denominators of different sizes (unequal), equal denominators (whole items compared)
             cls, numer, den = rng.choice(DENOMS)
